@@ -11,6 +11,7 @@ from ..dataflow import flow_of
 from ..program import FunctionInfo, dotted, norm, own_nodes
 from ..report import RuleResult
 from .mutation import _param_effects
+from ..shape import expanded, facts_at, inline_locals, ntext
 
 WRITE_CALLS = {"_create_parent", "_write_data"}
 WRITE_METHODS = {"mkdir", "touch", "write_text", "write_bytes", "unlink", "rename", "replace"}
@@ -97,7 +98,8 @@ def rule_chkeff(ctx: Ctx) -> RuleResult:
                 res.violation([cr.qualname, "mkdir", "parents"], "create: a folder entity is created without its ancestors", cr.relpath, w.lineno)
     cp = ctx.p.function("spil.sid.pathops.write_paths._create_parent")
     if any(isinstance(n, ast.Call) and isinstance(n.func, ast.Attribute) and n.func.attr == "mkdir" and any(
-            k.arg == "parents" and norm(k.value) == "True" for k in n.keywords) and norm(n.func.value) == "path.parent" for n in own_nodes(cp.node)):
+            k.arg == "parents" and norm(k.value) == "True" for k in n.keywords) and ntext(cp, n.func.value, n) == f"{cp.params[0]}.parent"
+            for n in own_nodes(cp.node)):
         res.ok("_create_parent", "path.parent.mkdir(parents=True)")
     else:
         res.violation([cp.qualname, "parents"], "_create_parent does not create all missing ancestors of the path", cp.relpath, cp.node.lineno)
@@ -131,7 +133,8 @@ def rule_set(ctx: Ctx) -> RuleResult:
 
 def rule_overlay(ctx: Ctx) -> RuleResult:
     res = RuleResult("R-OVERLAY")
-    f = ctx.p.function("spil.sid.pathops.write_paths._write_data")
+    f0 = ctx.p.function("spil.sid.pathops.write_paths._write_data")
+    f = expanded(ctx, f0)
     flow = flow_of(f.node)
     data_p = f.params[1]
     loads = [n for n in own_nodes(f.node) if isinstance(n, ast.Call) and dotted(n.func) in ("json.load", "json.loads")]
@@ -150,26 +153,22 @@ def rule_overlay(ctx: Ctx) -> RuleResult:
         res.violation([f.qualname, "merge direction"], f"_write_data: `{norm(u)}` does not overlay the new data onto the stored data", f.relpath, u.lineno)
     d = dumps[0]
     dn = flow.node_of(d)
-    defs = flow.defs_reaching(dn.id, norm(d.args[0])) if isinstance(d.args[0], ast.Name) else []
+    al = flow.aliases(d.args[0], dn.id) if d.args else set()
+    dp = flow.depends(d.args[0], dn.id) if d.args else set()
     kinds = set()
-    for x in defs:
-        if x.kind == "param":
-            kinds.add("new")
-        elif x.value is not None and any(a.kind == "call" and a.text in ("json.load", "json.loads") for a in flow.depends(x.value, x.node)):
-            kinds.add("merged")
-        else:
-            kinds.add("other")
+    if any(a.kind == "param" and a.text == data_p for a in al):
+        kinds.add("new")
+    if any(a.kind == "call" and a.text in ("json.load", "json.loads") for a in al | dp):
+        kinds.add("merged")
     if kinds == {"new", "merged"}:
         res.ok("_write_data dump", "dumps the merged mapping when a sidecar exists, else the new mapping")
     else:
-        res.violation([f.qualname, "dumped value"], f"_write_data dumps {sorted(kinds)} instead of merged-or-new", f.relpath, d.lineno)
-    # the merge happens exactly when the sidecar exists
-    cfg = cfg_of(f.node)
-    tests = [(norm(t), lab) for t, lab in ctx.ef._dominating_tests(cfg, u)]
-    if ("data_path.exists()", "true") in tests:
-        res.ok("_write_data exists branch", "merge under `if data_path.exists()`")
+        res.violation([f.qualname, "dumped value"], f"_write_data dumps {sorted(kinds) or 'something else'} instead of merged-or-new", f.relpath, d.lineno)
+    facts = facts_at(ctx, f, u)
+    if any(t.endswith(".exists()") and truth for t, truth in facts):
+        res.ok("_write_data exists branch", "merge only when the sidecar exists")
     else:
-        res.violation([f.qualname, "exists branch"], "_write_data does not merge under `if data_path.exists()`", f.relpath, u.lineno)
+        res.violation([f.qualname, "exists branch"], "_write_data does not merge under `if <sidecar>.exists()`", f.relpath, u.lineno)
     return res
 
 
@@ -221,13 +220,13 @@ def rule_yield1(ctx: Ctx) -> RuleResult:
     res = RuleResult("R-YIELD1")
     for q, finder_call in (("spil.sid.read.getters.getter_finder.GetByFinder.get", "find"),
                            ("spil.sid.read.getters.getter_finder.GetByFinder.do_get", "do_find")):
-        f = ctx.p.function(q)
+        f = expanded(ctx, ctx.p.function(q))
         loops = [n for n in own_nodes(f.node) if isinstance(n, ast.For)]
         ok = False
         why = "no loop over the finder's results"
         if len(loops) == 1:
             lp = loops[0]
-            it = lp.iter
+            it = inline_locals(f, lp.iter, lp)
             var = norm(lp.target)
             good_iter = isinstance(it, ast.Call) and norm(it.func) == f"self.finder.{finder_call}" and any(
                 k.arg == "as_sid" and norm(k.value) == "True" for k in it.keywords)
@@ -292,7 +291,7 @@ def rule_yield1(ctx: Ctx) -> RuleResult:
 
 def rule_getdata(ctx: Ctx) -> RuleResult:
     res = RuleResult("R-GETDATA")
-    f = ctx.p.function("spil.sid.pathops.getter_paths.GetFromPaths.get_data")
+    f = expanded(ctx, ctx.p.function("spil.sid.pathops.getter_paths.GetFromPaths.get_data"))
     flow = flow_of(f.node)
     cfg = cfg_of(f.node)
     # the record dictionary is fresh per call
@@ -311,10 +310,10 @@ def rule_getdata(ctx: Ctx) -> RuleResult:
         res.violation([f.qualname, "shared record", ",".join(sorted(repr(a) for a in al))],
                       f"get_data writes 'sid' into a dictionary that outlives the call ({sorted(repr(a) for a in al)}): records of different "
                       f"Sids / calls share state", f.relpath, st.lineno)
-    tests = [(norm(t), lab) for t, lab in ctx.ef._dominating_tests(cfg, st)]
+    facts = facts_at(ctx, f, st)
     enc = [d for d in flow.all_defs if d.var == norm(st.value) and d.value is not None]
-    inner = [t for t in tests if t[0] not in ("not sid_path",)]
-    if inner == [(norm(st.value), "true")] and enc and norm(enc[0].value) == "sid_encode(_sid)":
+    other = {t for t, truth in facts if t != norm(st.value) and "sid_path" not in t and "path" not in t}
+    if (norm(st.value), True) in facts and not other and enc and norm(enc[0].value) == "sid_encode(_sid)":
         res.ok("get_data 'sid'", "data['sid'] = sid_encode(_sid) exactly when that is truthy")
     else:
         res.violation([f.qualname, "sid encoding"], "get_data: the 'sid' entry is not `sid_encode(_sid)` set iff truthy", f.relpath, st.lineno)
@@ -365,7 +364,7 @@ def rule_mutdefault(ctx: Ctx) -> RuleResult:
 # ------------------------------------------------------------------------------------------------ C17
 def rule_atomic(ctx: Ctx) -> RuleResult:
     res = RuleResult("R-ATOMIC")
-    f = ctx.p.function("spil.sid.pathops.write_paths._write_data")
+    f = expanded(ctx, ctx.p.function("spil.sid.pathops.write_paths._write_data"))
     flow = flow_of(f.node)
     cfg = cfg_of(f.node)
     pdefs = [d for d in flow.all_defs if d.kind == "assign" and isinstance(d.value, ast.Call) and dotted(d.value.func) == "get_data_json_path"]
@@ -373,26 +372,39 @@ def rule_atomic(ctx: Ctx) -> RuleResult:
         res.violation([f.qualname, "sidecar path"], "_write_data does not compute the sidecar path once", f.relpath, f.node.lineno)
         return res
     P = pdefs[0].var
+    # names that always hold the sidecar path (plain aliases, also through inlined helper parameters)
+    P_names: Set[str] = {P}
+    changed = True
+    while changed:
+        changed = False
+        for v in {d.var for d in flow.all_defs} - P_names:
+            ds = [d for d in flow.all_defs if d.var == v]
+            if ds and all(d.kind == "assign" and isinstance(d.value, ast.Name) and d.value.id in P_names for d in ds):
+                P_names.add(v)
+                changed = True
 
     def is_P(e: ast.AST, at: Optional[int]) -> bool:
         if isinstance(e, ast.Call) and dotted(e.func) == "str" and e.args:
             e = e.args[0]
-        if isinstance(e, ast.Name):
-            if e.id == P:
-                return True
-            ds = flow.defs_reaching(at, e.id) if at is not None else []
-            return bool(ds) and all(d.kind == "assign" and isinstance(d.value, ast.Name) and d.value.id == P for d in ds)
-        return False
+        return isinstance(e, ast.Name) and e.id in P_names
 
     # temp paths: derived from P but not P
     temps: Set[str] = set()
     for d in flow.all_defs:
-        if d.kind == "assign" and d.value is not None and d.var != P:
-            if any(isinstance(x, ast.Name) and x.id == P for x in ast.walk(d.value)) and not (isinstance(d.value, ast.Name)):
+        if d.kind == "assign" and d.value is not None and d.var not in P_names:
+            if any(isinstance(x, ast.Name) and x.id in P_names for x in ast.walk(d.value)) and not (isinstance(d.value, ast.Name)):
                 v = d.value
                 if isinstance(v, ast.Call) and (isinstance(v.func, ast.Attribute) and v.func.attr in ("with_name", "with_suffix") or dotted(v.func) in (
                         "Path", "str")) or isinstance(v, ast.BinOp):
                     temps.add(d.var)
+    changed = True
+    while changed:  # aliases of the temporary path
+        changed = False
+        for v in {d.var for d in flow.all_defs} - temps - P_names:
+            ds = [d for d in flow.all_defs if d.var == v]
+            if ds and all(d.kind == "assign" and isinstance(d.value, ast.Name) and d.value.id in temps for d in ds):
+                temps.add(v)
+                changed = True
     problems = []
     writes_T = []
     renames = []
@@ -491,24 +503,14 @@ def _is_str_method(recv: ast.AST) -> bool:
 
 def rule_tolerant(ctx: Ctx) -> RuleResult:
     res = RuleResult("R-TOLERANT")
-    f = ctx.p.function("spil.sid.pathops.getter_paths.GetFromPaths.get_data")
-
-    def read_ops(g):
-        return [n for n in own_nodes(g.node) if isinstance(n, ast.Call) and (dotted(n.func) in ("json.load", "json.loads", "open", "builtins.open") or (
-            isinstance(n.func, ast.Attribute) and n.func.attr in ("open", "read_text", "read_bytes")))]
-
-    reads = [(f, r, None) for r in read_ops(f)]
-    # reads moved into a helper of the same module: the handler may sit in the helper or around the call
-    for cs in ctx.cg.sites.get(f.qualname, []):
-        for t in cs.targets:
-            if t.module is f.module and t is not f and isinstance(cs.node, ast.Call):
-                reads += [(t, r, cs.node) for r in read_ops(t)]
-    res.floor(len(reads), 2, "sidecar read operations reachable from get_data")
-    for g, r, via in reads:
-        missing = [e for e in ("OSError", "JSONDecodeError", "UnicodeDecodeError") if not (
-            ctx.ef.caught_locally(g, r, e) or (via is not None and ctx.ef.caught_locally(f, via, e)))]
+    f = expanded(ctx, ctx.p.function("spil.sid.pathops.getter_paths.GetFromPaths.get_data"))
+    reads = [n for n in own_nodes(f.node) if isinstance(n, ast.Call) and (dotted(n.func) in ("json.load", "json.loads", "open", "builtins.open") or (
+        isinstance(n.func, ast.Attribute) and n.func.attr in ("open", "read_text", "read_bytes")))]
+    res.floor(len(reads), 1, "sidecar read operations reachable from get_data")
+    for r in reads:
+        missing = [e for e in ("OSError", "JSONDecodeError", "UnicodeDecodeError") if not ctx.ef.caught_locally(f, r, e)]
         if missing:
-            res.violation([f.qualname, norm(r.func), ",".join(missing)],
+            res.violation([f.qualname, norm(r.func).split("_")[-1] if norm(r.func).startswith("_h") else norm(r.func), ",".join(missing)],
                           f"get_data: `{norm(r)[:50]}` can raise {missing} (sidecar made a directory, unreadable, truncated, not utf-8) and no "
                           f"handler in get_data catches it: one damaged sidecar makes reads and whole searches fail", f.relpath, r.lineno)
         else:
